@@ -28,6 +28,7 @@ Apply(S, st) ==
     [] st.a = "DSlash"     -> OpDSlash(S, st.ax, st.t)
     [] st.a = "DSlashPred" -> OpDSlashPred(S, st.ax, st.t, st.pr)
     [] st.a = "Paren"      -> OpParen(S, st.pr)
+    [] st.a = "StepPred2"  -> OpStepPred2(S, st.ax, st.t, st.pr, st.pr2)
 
 RECURSIVE EvalSteps(_, _)
 EvalSteps(S, steps) == IF steps = <<>> THEN S ELSE EvalSteps(Apply(S, Head(steps)), Tail(steps))
